@@ -116,12 +116,14 @@ class BibliographyData(object):
 
     def __repr__(self):
 
-        repr_entry = repr(self.entries)
-        keys = self.entries.keys()
-
-        for key in keys:
-            ind = repr_entry.index(key) - 2  # find first instance
-            repr_entry = repr_entry[:ind] + "\n" + repr_entry[ind:]
+        # repr(self.entries) with each (key, entry) pair on a line of its own
+        repr_entry = "{0}([{1}])".format(
+            type(self.entries).__name__,
+            ", ".join(
+                "\n({0!r}, {1!r})".format(key, entry)
+                for key, entry in self.entries.items()
+            ),
+        )
 
         repr_entry = indent(repr_entry, prefix="    ")
         repr_entry = repr_entry[4:]  # drop 1st indent
